@@ -23,7 +23,9 @@ EPOCH = datetime.datetime(1970, 1, 1)
 
 STRINGS = ['a', 'b', 'ab', 'abc', '', 'é', 'ß∂', '𝔘', 'x y', ' lead', 'trail ', '12', 'A', 'á', 'zz', "q'uote",
            'back\\slash', 'new\nline', 'tab\t', '1.5', 'NULL', 'nan', 'True', '0', 'longer string here',
-           'line\u2028sep', 'para\u2029', 'nel\u0085x', 'two  spaces  ']
+           'line\u2028sep', 'para\u2029', 'nel\u0085x', 'two  spaces  ',
+           # punctuation runs that vary between rows and include a backslash / a bracket
+           'C:\\data', 'D:/data', 'a\\b', 'c]d', 'e[f', 'g\\]h']
 INTS = [0, 1, -1, 2, 3, 7, 10, -10, 100, 255, 2 ** 31 - 1, -2 ** 31, 2 ** 53 + 1, -(2 ** 53) - 1, 2 ** 62, 5, 6,
         2 ** 53 + 3, -(2 ** 53) - 3, 2 ** 62 + 1, 2 ** 53 + 5]
 REALS = [0.0, -0.0, 1.0, -1.0, 0.5, -0.5, 1.5, 2.0, 3.0, 1e-300, -1e-300, 1e300, 0.1, 0.01, 100.0, 99.0, 101.0,
@@ -381,7 +383,7 @@ def gen_constraints(rng, col, rich=True):
             continue
         if kind == 'type':
             v = rng.choice([t, t, 'int', 'real', 'bool', 'string', 'date', ['int', 'real'], ['bool', 'string'],
-                            [t, 'date']])
+                            [t, 'date'], ['int', 'string']])
             out[kind] = {'value': v}
         elif kind in ('min', 'max'):
             if t in ('bool', 'int', 'real'):
